@@ -826,7 +826,7 @@ package zapcore
 // ---------------------------------------------------------------------------
 // lazy_with.go (C07, C09): once-only deferred With
 
-//@ onceinit zapcore.lazyWithCore.core by Once props C09 C07
+//@ onceinit zapcore.lazyWithCore.core by Once props C09
 
 //@ func zapcore.NewLazyWith
 //@   props C07 C09
